@@ -18,7 +18,7 @@ PROPS = {
                        'encodeUtpContent/decodeUtpContent on every generated case',
     },
     'C04': {
-        'lean_targets': ['Shisui.Props.C04'],
+        'lean_targets': ['Shisui.Props.C04', 'Shisui.Inst.C04'],
         'min_obligations': 6,
         'runs': [{'name': 'store', 'harness': ['store'], 'driver': ['store', 'C04']}],
         'rule': 'random put/get/overwrite/reopen histories on the real pebble store over an in-memory file system (random and zero node '
@@ -58,7 +58,7 @@ PROPS = {
                        'executable model with the little-endian switch ON (the known finding), so any other divergence is reported',
     },
     'C19': {
-        'lean_targets': ['Shisui.Props.C19'],
+        'lean_targets': ['Shisui.Props.C19', 'Shisui.Inst.C19'],
         'min_obligations': 7,
         'runs': [{'name': 'versions', 'harness': ['C19'], 'driver': ['C19']}],
         'rule': 'findBiggestSameNumber on ALL pairs of lists of length 0..3 over {0,1,2} (1600 pairs, exhaustive for that domain) and random '
@@ -71,7 +71,7 @@ PROPS = {
                        'with the store-on-error switch ON (known finding, pinned by TestGetOrStoreHighestVersion)',
     },
     'C07': {
-        'lean_targets': ['Shisui.Props.C07'],
+        'lean_targets': ['Shisui.Props.C07', 'Shisui.Inst.C07'],
         'min_obligations': 4,
         'runs': [{'name': 'table', 'harness': ['table'], 'driver': ['table', 'C07']}],
         'rule': 'operation sequences (add found/inbound/forced-live, delete, revalidation timer, revalidation answers delivered in any order (dead / alive / alive with a new record), lookup feedback incl. runs of consecutive failures) against the real portalwire.Table with a fake transport and a simulated clock; node ids from pools of 34/90 keys so that buckets fill and ids repeat; addresses from three public /24s (one crowded in every fourth sequence), LAN, loopback and missing; sequence numbers 1..3; after every operation the full snapshot (entries with record/credit/verified flag/list, replacement order, per-bucket and table-wide /24 counters, fast/slow lists, active requests) must equal the model; non-trivial = the table held at least 8 entries; distinct = distinct operation lines among those',
@@ -81,7 +81,7 @@ PROPS = {
                        'the invariant and the revalidation-list agreement are evaluated on every real snapshot',
     },
     'C18': {
-        'lean_targets': ['Shisui.Props.C18'],
+        'lean_targets': ['Shisui.Props.C18', 'Shisui.Inst.C07'],
         'min_obligations': 6,
         'runs': [{'name': 'table', 'harness': ['table'], 'driver': ['table', 'C18']}],
         'rule': 'operation sequences (add found/inbound/forced-live, delete, revalidation timer, revalidation answers delivered in any order (dead / alive / alive with a new record), lookup feedback incl. runs of consecutive failures) against the real portalwire.Table with a fake transport and a simulated clock; node ids from pools of 34/90 keys so that buckets fill and ids repeat; addresses from three public /24s (one crowded in every fourth sequence), LAN, loopback and missing; sequence numbers 1..3; after every operation the full snapshot (entries with record/credit/verified flag/list, replacement order, per-bucket and table-wide /24 counters, fast/slow lists, active requests) must equal the model; non-trivial = the table held at least 8 entries; distinct = distinct operation lines among those',
@@ -91,7 +91,7 @@ PROPS = {
                        'the same clauses are evaluated on consecutive snapshots of the real table',
     },
     'C10': {
-        'lean_targets': ['Shisui.Props.C10'],
+        'lean_targets': ['Shisui.Props.C10', 'Shisui.Inst.C10'],
         'min_obligations': 5,
         'goexperiment': 'synctest',
         'runs': [{'name': 'lookup', 'harness': ['lookup'], 'driver': ['lookup']}],
@@ -107,7 +107,7 @@ PROPS = {
                        'result_sorted_distinct_le16, result_only_seen on the real run',
     },
     'C11': {
-        'lean_targets': ['Shisui.Props.C11'],
+        'lean_targets': ['Shisui.Props.C11', 'Shisui.Inst.C08'],
         'min_obligations': 5,
         'runs': [{'name': 'findnodes', 'harness': ['findnodes'], 'driver': ['C11']},
                  {'name': 'nodesresp', 'harness': ['nodesresp'], 'driver': ['C11']}],
@@ -124,7 +124,7 @@ PROPS = {
                        'decidable relation because buckets are shuffled, the asker by step equality',
     },
     'C08': {
-        'lean_targets': ['Shisui.Props.C08'],
+        'lean_targets': ['Shisui.Props.C08', 'Shisui.Inst.C08'],
         'min_obligations': 4,
         'runs': [{'name': 'findcontent', 'harness': ['findcontent'], 'driver': ['C08']},
                  {'name': 'transfer', 'harness': ['transfer'], 'driver': ['C08'], 'timeout': 1200}],
@@ -140,7 +140,7 @@ PROPS = {
                        'model; monitors on the real reply and on real transfers',
     },
     'C09': {
-        'lean_targets': ['Shisui.Props.C09'],
+        'lean_targets': ['Shisui.Props.C09', 'Shisui.Inst.C09'],
         'min_obligations': 7,
         'runs': [{'name': 'offer', 'harness': ['offer'], 'driver': ['C09']},
                  {'name': 'offer2', 'harness': ['offer2'], 'driver': ['C09'], 'timeout': 1200}],
@@ -156,7 +156,7 @@ PROPS = {
                        'decoded ACCEPT; the same clauses as monitors on the real reply; queue contents of real transfers',
     },
     'C20': {
-        'lean_targets': ['Shisui.Props.C20'],
+        'lean_targets': ['Shisui.Props.C20', 'Shisui.Inst.C20'],
         'min_obligations': 3,
         'runs': [{'name': 'gossip', 'harness': ['gossip'], 'driver': ['C20']},
                  {'name': 'radius', 'harness': ['radius'], 'driver': ['C20']}],
@@ -173,7 +173,7 @@ PROPS = {
                        'real gossip calls; step equality of the radius cache',
     },
     'C16': {
-        'lean_targets': ['Shisui.Props.C16'],
+        'lean_targets': ['Shisui.Props.C16', 'Shisui.Inst.C16'],
         'min_obligations': 3,
         'runs': [{'name': 'permits', 'harness': ['permits'], 'driver': ['C16'], 'timeout': 1200}],
         'rule': 'slot controller: random acquire-inbound / acquire-outbound / release / repeated-release sequences at limits 0..5 (step equality of every '
